@@ -527,3 +527,405 @@ def list_lemma_unit():
 
 
 UNITS.append(list_lemma_unit())
+
+
+# ================================================================================================ _ChildrenList.move
+FAC_CLASSES = dict(TASK_CLASSES)
+FAC_CLASSES['ChildrenFacade'] = {'_ChildrenList__parent': T, '_list': LR, '_ChildrenList__setter': REF('Setter')}
+
+
+def single_move_result(L0, t, before, after):
+    R = rem(L0, t)
+    return If(before != null, ins(R, idx(R, before), t), ins(R, idx(R, after) + 1, t))
+
+
+def move_unit():
+    def build():
+        OTk = OPT(T)
+        fl = lambda c, w='cur': Select(c.fld('ChildrenFacade', '_list', w), c['self'])
+        fp = lambda c: Select(c.fld('ChildrenFacade', '_ChildrenList__parent'), c['self'])
+        cur = lambda c, w='cur': Select(c.fld('PyList', 'elems', w), fl(c, 'pre'))
+        L0 = lambda c: cur(c, 'pre')
+
+        def c_to_list(eng, st, recv, args, kws, node):
+            Lv = fresh('tasks', LT); ii = Int('ii')
+            st.assume(And(ln(Lv) >= 0, ForAll([ii], Implies(And(0 <= ii, ii < ln(Lv)), at(Lv, ii) != null), patterns=[at(Lv, ii)]), ForAll([x], Implies(mem(Lv, x), x != null), patterns=[mem(Lv, x)])))
+            st.ghost['tasks0'] = Lv
+            return [(st, V(Lv, LT))]
+
+        def c_setter(eng, st, recv, args, kws, node):
+            # self.__setter is the bound Task.__set_children of the facade's parent (proved in its own unit): installs the list object handed in
+            me = st.env['self'].e; par_ = Select(eng.field(st, 'ChildrenFacade', '_ChildrenList__parent'), me)
+            eng.write(st, 'Task._Task__children', Store(eng.field(st, 'Task', '_Task__children'), par_, args[0].e))
+            return [(st, V(None, NONE))]
+
+        class MovePlugin(ListPlugin):
+            def call(self_, eng, e, st):
+                f = e.func
+                if isinstance(f, ast.Attribute) and f.attr == '__setter':
+                    s, a = eng.ev1(e.args[0], st)
+                    return c_setter(eng, s, None, [a], {}, e)
+                if isinstance(f, ast.Name) and f.id == 'any' and len(e.args) == 1 and isinstance(e.args[0], ast.GeneratorExp):
+                    g = e.args[0]
+                    if ast.unparse(g).replace(' ', '') != '(tisbeforeortisafterfortintasks)': raise Unsupported('any(...) form')
+                    s, xs = eng.ev1(g.generators[0].iter, st)
+                    b, a = s.env['before'], s.env['after']
+                    return [(s, V(Or(And(b.e != null, mem(xs.e, b.e)), And(a.e != null, mem(xs.e, a.e))), BOOL))]
+                return ListPlugin.call(self_, eng, e, st)
+        tk = lambda c: c['tasks']
+        h = lambda c, w='cur': H(c.eng, c.st if w == 'cur' else c.pre)
+
+        def reject(c):       # the stated reasons (C15: all of them are found before anything is changed)
+            t0 = c.st.ghost.get('tasks0', c.pre.ghost.get('tasks0')); b, a = c.old('before'), c.old('after')
+            return Or(Exists([x], And(mem(t0, x), Not(mem(L0(c), x)))), And(b != null, Not(mem(L0(c), b))), And(a != null, Not(mem(L0(c), a))), And(b != null, a != null), And(b == null, a == null),
+                      And(b != null, mem(t0, b)), And(a != null, mem(t0, a)))
+
+        def inv0(c):
+            j = Int('j')
+            return And(c['_i0'] >= 0, cur(c) == L0(c), h(c).chl == h(c, 'pre').chl, h(c).elems == h(c, 'pre').elems, ForAll([j], Implies(And(0 <= j, j < c['_i0']), mem(L0(c), at(tk(c), j)))))
+
+        def inv1(c):
+            j = Int('j'); b, a = c['before'], c['after']; Lc = cur(c); anchor = If(b != null, b, a)
+            return And(c['_i1'] >= 0, c['_i1'] <= ln(tk(c)), h(c).chl == h(c, 'pre').chl, h(c).par == h(c, 'pre').par,
+                       ForAll([t_], Implies(h(c, 'pre').chl[t_] != fl(c, 'pre'), h(c).ch(t_) == h(c, 'pre').ch(t_)), patterns=[h(c).chl[t_]]),
+                       nodup(Lc), ln(Lc) == ln(L0(c)), ForAll([x], mem(Lc, x) == mem(L0(c), x), patterns=[mem(Lc, x)]),
+                       ForAll([x], Implies(mem(tk(c), x), mem(L0(c), x)), patterns=[mem(tk(c), x)]),
+                       Or(And(b != null, a == null), And(b == null, a != null)), mem(L0(c), anchor), Not(mem(tk(c), anchor)),
+                       # the tasks that are not moved keep their relative order
+                       ForAll([a_, b_], Implies(And(mem(L0(c), a_), mem(L0(c), b_), Not(mem(tk(c), a_)), Not(mem(tk(c), b_))), (idx(Lc, a_) < idx(Lc, b_)) == (idx(L0(c), a_) < idx(L0(c), b_))),
+                              patterns=[MultiPattern(idx(Lc, a_), idx(Lc, b_))]),
+                       # the task moved last sits next to the anchor
+                       Implies(c['_i1'] > 0, If(b != null, idx(Lc, at(tk(c), c['_i1'] - 1)) + 1 == idx(Lc, b), idx(Lc, at(tk(c), c['_i1'] - 1)) == idx(Lc, a) + 1)),
+                       Implies(c['_i1'] == 0, Lc == L0(c)), Implies(c['_i1'] == 1, Lc == single_move_result(L0(c), at(tk(c), 0), b, a)))
+        fc = {'sig': {'self': FAC, 'tasks': LT, 'before': T, 'after': T}, 'locals': {},
+              'requires': [('pre', lambda c: And(c['self'] != FAC.null, fp(c) != null, fl(c) != LR.null, fl(c) == h(c).chl[fp(c)],        # V1: the facade aliases its parent's list object
+                                                 nodup(cur(c)), ForAll([x], Implies(mem(cur(c), x), x != null), patterns=[mem(cur(c), x)]))),
+                           ('O1-list-objects-distinct', lambda c: Inv(h(c))['O1-list-objects-distinct'])],
+              'loops': {0: {'fingerprint': 'for task in tasks', 'invariant': [('all-moved-tasks-are-members-so-far', inv0)]},
+                        1: {'fingerprint': 'for task in tasks', 'invariant': [('permutation-with-order-and-adjacency', inv1)], 'havoc_heap': ['PyList.elems']}},
+              'raises': {'RuntimeError': [('C15/rejected-call-changes-nothing', lambda c: And(h(c).elems == h(c, 'pre').elems, h(c).chl == h(c, 'pre').chl, h(c).par == h(c, 'pre').par)),
+                                          ('C15,C16/rejected-only-for-a-stated-reason', reject)]},
+              'ensures': [('C16/accepted-only-without-a-reason-to-reject', lambda c: Not(reject(c))),
+                          ('C01/same-members-each-once (F1 F2 F3 preserved: nobody joins or leaves the list)', lambda c: And(nodup(cur(c)), ForAll([x], mem(cur(c), x) == mem(L0(c), x)), h(c).par == h(c, 'pre').par)),
+                          ('C01,C11/list-object-of-the-parent-unchanged', lambda c: And(h(c).chl[fp(c)] == fl(c, 'pre'), ForAll([t_], Implies(t_ != fp(c), h(c).chl[t_] == h(c, 'pre').chl[t_])))),
+                          ('C16/tasks-that-are-not-moved-keep-their-relative-order', lambda c: ForAll([a_, b_], Implies(And(mem(L0(c), a_), mem(L0(c), b_), Not(mem(tk(c), a_)), Not(mem(tk(c), b_))),
+                                                                                                                     (idx(cur(c), a_) < idx(cur(c), b_)) == (idx(L0(c), a_) < idx(L0(c), b_))))),
+                          ('C16/a-single-moved-task-ends-up-immediately-before-or-after-the-anchor', lambda c: Implies(ln(tk(c)) == 1, If(c['before'] != null, idx(cur(c), at(tk(c), 0)) + 1 == idx(cur(c), c['before']),
+                                                                                                                                           idx(cur(c), at(tk(c), 0)) == idx(cur(c), c['after']) + 1))),
+                          ('C16/children-lists-of-all-other-tasks-unchanged', lambda c: ForAll([t_], Implies(h(c, 'pre').chl[t_] != fl(c, 'pre'), h(c).ch(t_) == h(c, 'pre').ch(t_)))),
+                          ('C16/a-single-moved-task-exact-list', lambda c: Implies(ln(tk(c)) == 1, cur(c) == single_move_result(L0(c), at(tk(c), 0), c['before'], c['after'])))]}
+        return Engine(F, '_ChildrenList.move', {'fn:_to_list': c_to_list}, FAC_CLASSES, fc, plugins=[MovePlugin()]), LIST_AX + LIST_INS_AX
+    return Unit('_ChildrenList.move', F, build, ['C01', 'C15', 'C16'], timeout_ms=15000)
+
+
+UNITS.append(move_unit())
+
+
+# ================================================================================================ _ChildrenList.sort
+KEYARG = S('KeyArg', None)     # dynamically typed `key`: a str, a list/tuple/set of str, or something else
+sorted_by = Function('sorted_by', LT.z, IntSort(), BoolSort(), LT.z)          # sorted(l, key=<key function k>, reverse=r)  (library contract L)
+kle = Function('key_le', IntSort(), T.z, T.z, BoolSort())                      # the total preorder induced by key function k
+_kf = Int('_kf'); _rv = Bool('_rv')
+SORTED_AX = [   # assumed contract of the built-in sorted: a stable permutation ordered by the key (reverse=True: descending, still stable)
+    ForAll([l, _kf, _rv], And(ln(sorted_by(l, _kf, _rv)) == ln(l), Implies(nodup(l), nodup(sorted_by(l, _kf, _rv)))), patterns=[sorted_by(l, _kf, _rv)]),
+    ForAll([l, _kf, _rv, x], mem(sorted_by(l, _kf, _rv), x) == mem(l, x), patterns=[mem(sorted_by(l, _kf, _rv), x)]),
+    ForAll([l, _kf, _rv, a, b], Implies(And(nodup(l), mem(l, a), mem(l, b), idx(sorted_by(l, _kf, _rv), a) < idx(sorted_by(l, _kf, _rv), b)),
+                                        And(If(_rv, kle(_kf, b, a), kle(_kf, a, b)), Implies(And(kle(_kf, a, b), kle(_kf, b, a)), idx(l, a) < idx(l, b)))),
+           patterns=[MultiPattern(idx(sorted_by(l, _kf, _rv), a), idx(sorted_by(l, _kf, _rv), b))]),
+]
+
+
+def sort_unit():
+    def build():
+        fl = lambda c, w='cur': Select(c.fld('ChildrenFacade', '_list', w), c['self'])
+        fp = lambda c: Select(c.fld('ChildrenFacade', '_ChildrenList__parent'), c['self'])
+        cur = lambda c, w='cur': Select(c.fld('PyList', 'elems', w), fl(c, 'pre'))
+        L0 = lambda c: cur(c, 'pre')
+        h = lambda c, w='cur': H(c.eng, c.st if w == 'cur' else c.pre)
+        key = {'isstr': Bool('key_is_str'), 'isseq': Bool('key_is_list_tuple_or_set'), 'fn_single': Int('keyfn_attribute'), 'fn_joined': Int('keyfn_joined_attributes')}
+
+        class SortPlugin(ListPlugin):
+            def call(self_, eng, e, st):
+                f = e.func
+                if isinstance(f, ast.Name) and f.id == 'type' and len(e.args) == 1:
+                    s, v = eng.ev1(e.args[0], st)
+                    if v.s == KEYARG: return [(s, V(v.e, S('TypeOfKey', None)))]
+                if isinstance(f, ast.Name) and f.id == 'sorted' and len(e.args) == 1:
+                    s, v = eng.ev1(e.args[0], st)
+                    kws = {k.arg: k.value for k in e.keywords}
+                    if set(kws) != {'key', 'reverse'} or not isinstance(kws['key'], ast.Lambda): raise Unsupported('sorted(...) form')
+                    src_ = ast.unparse(kws['key'].body)
+                    if src_ == 'x.__getattribute__(key)': kf = key['fn_single']
+                    elif src_.startswith("'-'.join(") and 'for k in key' in src_: kf = key['fn_joined']
+                    else: raise Unsupported('sort key function form')
+                    s, rv = eng.ev1(kws['reverse'], s)
+                    return [(s, V(sorted_by(self_.listval(eng, s, v, e.lineno), kf, rv.e), LT))]
+                if isinstance(f, ast.Attribute) and f.attr == '__setter':
+                    s, a = eng.ev1(e.args[0], st)
+                    me = s.env['self'].e; par_ = Select(eng.field(s, 'ChildrenFacade', '_ChildrenList__parent'), me)
+                    eng.write(s, 'Task._Task__children', Store(eng.field(s, 'Task', '_Task__children'), par_, a.e))
+                    return [(s, V(None, NONE))]
+                return ListPlugin.call(self_, eng, e, st)
+
+            def ev_Name(self_, eng, e, st):
+                if e.id in ('str', 'list', 'tuple', 'set') and e.id not in st.env: return [(st, V(e.id, S('TypeName', None)))]
+                return NotImplemented
+
+            def cmp(self_, eng, st, k, l_, r, line):
+                if k in ('Is', 'IsNot') and l_.s.name == 'TypeOfKey' and r.s.name == 'TypeName':
+                    c = key['isstr'] if r.e == 'str' else (key['isseq'] if r.e in ('list', 'tuple', 'set') else None)
+                    if c is None: raise Unsupported('type name')
+                    return c if k == 'Is' else Not(c)
+                return ListPlugin.cmp(self_, eng, st, k, l_, r, line)
+
+            def assign(self_, eng, s, target, v):
+                # self._list[:] = <list value>: the contents of the SAME list object are replaced
+                if isinstance(target, ast.Subscript) and isinstance(target.slice, ast.Slice) and target.slice.lower is None and target.slice.upper is None:
+                    s2, o = eng.ev1(target.value, s)
+                    if o.s == LR:
+                        s2.oblige('safe/AttributeError-None', o.e != LR.null, f'@{target.lineno}')
+                        nl = fresh('lv', LT); s2.assume(nl == self_.listval(eng, s2, v, target.lineno))
+                        eng.write(s2, 'PyList.elems', Store(eng.field(s2, 'PyList', 'elems'), o.e, nl))
+                        return [(s2, FALL)]
+                return ListPlugin.assign(self_, eng, s, target, v)
+        kf = lambda c: If(key['isstr'], key['fn_single'], key['fn_joined'])
+        fc = {'sig': {'self': FAC, 'reverse': BOOL}, 'globals': {'key': V(key, KEYARG)},
+              'requires': [('pre', lambda c: And(c['self'] != FAC.null, fp(c) != null, fl(c) != LR.null, fl(c) == h(c).chl[fp(c)], nodup(cur(c)), Not(And(key['isstr'], key['isseq'])))),
+                           ('O1-list-objects-distinct', lambda c: Inv(h(c))['O1-list-objects-distinct'])],
+              'raises': {'RuntimeError': [('C15/rejected-call-changes-nothing', lambda c: And(h(c).elems == h(c, 'pre').elems, h(c).chl == h(c, 'pre').chl)),
+                                          ('C16/rejected-only-for-an-unsupported-key-type', lambda c: And(Not(key['isstr']), Not(key['isseq'])))]},
+              'ensures': [('C16/list-is-the-stable-sort-of-the-old-list-by-the-attribute-(reversed-on-request)', lambda c: cur(c) == sorted_by(L0(c), kf(c), c['reverse'])),
+                          ('C01/same-members-each-once (F1 F2 F3 preserved)', lambda c: And(nodup(cur(c)), ForAll([x], mem(cur(c), x) == mem(L0(c), x)), h(c).par == h(c, 'pre').par)),
+                          ('C01,C11/list-object-of-the-parent-unchanged (earlier facades stay valid)', lambda c: And(h(c).chl[fp(c)] == fl(c, 'pre'), ForAll([t_], Implies(t_ != fp(c), h(c).chl[t_] == h(c, 'pre').chl[t_])))),
+                          ('C16/children-lists-of-all-other-tasks-unchanged', lambda c: ForAll([t_], Implies(h(c, 'pre').chl[t_] != fl(c, 'pre'), h(c).ch(t_) == h(c, 'pre').ch(t_))))]}
+        return Engine(F, '_ChildrenList.sort', {}, FAC_CLASSES, fc, plugins=[SortPlugin()]), LIST_AX + SORTED_AX
+    return Unit('_ChildrenList.sort', F, build, ['C01', 'C15', 'C16'])
+
+
+UNITS.append(sort_unit())
+
+
+# ================================================================================================ _ChildrenList.reorder
+def reorder_unit():
+    def build():
+        LI_ = LIST(INT)
+        fl = lambda c, w='cur': Select(c.fld('ChildrenFacade', '_list', w), c['self'])
+        fp = lambda c: Select(c.fld('ChildrenFacade', '_ChildrenList__parent'), c['self'])
+        cur = lambda c, w='cur': Select(c.fld('PyList', 'elems', w), fl(c, 'pre'))
+        L0 = lambda c: cur(c, 'pre')
+        h = lambda c, w='cur': H(c.eng, c.st if w == 'cur' else c.pre)
+        el = lambda c, ref: Select(c.fld('PyList', 'elems'), ref)
+        j = Int('j'); k2 = Int('k2')
+
+        def first_with_id(c, t, i_):       # t is the first task of the old list whose id is i_
+            return And(mem(L0(c), t), h(c).tid[t] == i_, ForAll([k2], Implies(And(0 <= k2, k2 < idx(L0(c), t)), h(c).tid[at(L0(c), k2)] != i_)))
+
+        class ReorderPlugin(ListPlugin):
+            def call(self_, eng, e, st):
+                f = e.func
+                if isinstance(f, ast.Attribute) and f.attr == 'copy' and not e.args:
+                    s, v = eng.ev1(f.value, st)
+                    if v.s == LR:
+                        s.oblige('safe/AttributeError-None', v.e != LR.null, f'@{e.lineno}')
+                        return self_.fresh_list(eng, s, Select(eng.field(s, 'PyList', 'elems'), v.e))
+                if isinstance(f, ast.Name) and f.id == 'next' and len(e.args) == 1 and isinstance(e.args[0], ast.GeneratorExp):
+                    g = e.args[0]
+                    if ast.unparse(g).replace(' ', '') != '(tfortinselfift.id==_id)': raise Unsupported('next(...) form')
+                    me = st.env['self'].e
+                    lst = Select(eng.field(st, 'PyList', 'elems'), Select(eng.field(st, 'ChildrenFacade', '_list'), me))        # iterating the facade iterates its list
+                    idv = st.env['_id'].e; tidf = eng.field(st, 'Task', '_Task__id')
+                    jv = fresh('found', INT); found = st.fork(); none = st.fork()
+                    found.assume(And(0 <= jv, jv < ln(lst), tidf[at(lst, jv)] == idv, ForAll([k2], Implies(And(0 <= k2, k2 < jv), tidf[at(lst, k2)] != idv))))
+                    none.assume(ForAll([k2], Implies(And(0 <= k2, k2 < ln(lst)), tidf[at(lst, k2)] != idv)))
+                    return [(found, V(at(lst, jv), T)), (none, Raise('StopIteration'))]
+                if isinstance(f, ast.Attribute) and f.attr == '__setter':
+                    s, a = eng.ev1(e.args[0], st)
+                    me = s.env['self'].e; par_ = Select(eng.field(s, 'ChildrenFacade', '_ChildrenList__parent'), me)
+                    eng.write(s, 'Task._Task__children', Store(eng.field(s, 'Task', '_Task__children'), par_, a.e))
+                    return [(s, V(None, NONE))]
+                return ListPlugin.call(self_, eng, e, st)
+
+            def fresh_list(self_, eng, s, value):
+                r = fresh('locallist', LR); s.assume(r != LR.null)
+                for fld in ('_Task__children', '_Task__predecessors', '_Task__successors'):
+                    arr = eng.field(s, 'Task', fld); tt = Const('tt_', T.z)
+                    s.assume(ForAll([tt], arr[tt] != r, patterns=[arr[tt]]))
+                s.assume(r != Select(eng.field(s, 'ChildrenFacade', '_list'), s.env['self'].e))
+                for other in s.ghost.get('locals_', []): s.assume(r != other)
+                s.ghost['locals_'] = s.ghost.get('locals_', []) + [r]
+                eng.write(s, 'PyList.elems', Store(eng.field(s, 'PyList', 'elems'), r, value))
+                return [(s, V(r, LR))]
+
+            def ev_List(self_, eng, e, st):
+                if e.elts: return NotImplemented
+                return self_.fresh_list(eng, st, empty)
+
+            def binop(self_, eng, st, k, l_, r, line):
+                if k == 'Add' and l_.s == LR and r.s == LR:
+                    return V(cat(self_.listval(eng, st, l_, line), self_.listval(eng, st, r, line)), LT)
+                return NotImplemented
+
+            def cmp(self_, eng, st, k, l_, r, line):
+                if k in ('Is', 'IsNot') and l_.s.name == 'Ref:Setter' and r.s == NONE:
+                    c = l_.e == REF('Setter').null; return c if k == 'Is' else Not(c)
+                return ListPlugin.cmp(self_, eng, st, k, l_, r, line)
+
+            def assign(self_, eng, s, target, v):
+                if isinstance(target, ast.Subscript) and isinstance(target.slice, ast.Slice) and target.slice.lower is None and target.slice.upper is None:
+                    s2, o = eng.ev1(target.value, s)
+                    if o.s == LR:
+                        nl = fresh('lv', LT); s2.assume(nl == self_.listval(eng, s2, v, target.lineno))
+                        eng.write(s2, 'PyList.elems', Store(eng.field(s2, 'PyList', 'elems'), o.e, nl))
+                        return [(s2, FALL)]
+                return ListPlugin.assign(self_, eng, s, target, v)
+
+            def for_loop(self_, eng, stmt, st):
+                return NotImplemented
+        ids = lambda c: c['ids']
+
+        def inv(c):
+            i = c['_i0']; N = el(c, c['new_list']); A = el(c, c['_all'])
+            return And(i >= 0, i <= LI_.len(ids(c)), h(c).chl == h(c, 'pre').chl, cur(c) == L0(c), h(c).par == h(c, 'pre').par, h(c).tid == h(c, 'pre').tid,
+                       c['new_list'] != c['_all'], c['new_list'] != fl(c, 'pre'), c['_all'] != fl(c, 'pre'), c['new_list'] != LR.null, c['_all'] != LR.null,
+                       ForAll([t_], And(h(c).chl[t_] != c['new_list'], h(c).chl[t_] != c['_all']), patterns=[h(c).chl[t_]]),
+                       ForAll([t_], Implies(t_ != null, h(c).ch(t_) == h(c, 'pre').ch(t_)), patterns=[h(c).chl[t_]]),
+                       ln(N) == i, nodup(N), nodup(A),
+                       ForAll([x], mem(A, x) == And(mem(L0(c), x), Not(mem(N, x))), patterns=[mem(A, x)]),
+                       ForAll([x], Implies(mem(N, x), mem(L0(c), x)), patterns=[mem(N, x)]),
+                       ForAll([j], Implies(And(0 <= j, j < i), first_with_id(c, at(N, j), LI_.at(ids(c), j))), patterns=[at(N, j)]),
+                       ForAll([a_, b_], Implies(And(mem(A, a_), mem(A, b_)), (idx(A, a_) < idx(A, b_)) == (idx(L0(c), a_) < idx(L0(c), b_))), patterns=[MultiPattern(idx(A, a_), idx(A, b_))]))
+        unchanged = lambda c: And(h(c).chl == h(c, 'pre').chl, h(c).par == h(c, 'pre').par, ForAll([t_], Implies(t_ != null, h(c).ch(t_) == h(c, 'pre').ch(t_))))
+        n_ids = lambda c: LI_.len(ids(c))
+        fc = {'sig': {'self': FAC, 'ids': LI_}, 'locals': {'_id': INT, 'ch': T, '_all': LR, 'new_list': LR},
+              'requires': [('pre', lambda c: And(c['self'] != FAC.null, fp(c) != null, fl(c) != LR.null, fl(c) == h(c).chl[fp(c)], nodup(cur(c)), LI_.len(ids(c)) >= 0,
+                                                 ForAll([x], Implies(mem(cur(c), x), x != null), patterns=[mem(cur(c), x)]))),
+                           ('O1-list-objects-distinct', lambda c: Inv(h(c))['O1-list-objects-distinct'])],
+              'loops': {0: {'fingerprint': 'for _id in ids', 'invariant': [('listed-tasks-collected-in-order-rest-keeps-its-order', inv)], 'havoc_heap': ['PyList.elems']}},
+              'raises': {'RuntimeError': [('C15/rejected-call-changes-nothing', unchanged)], 'StopIteration': [('C15/rejected-call-changes-nothing', unchanged)], 'ValueError': [('C15/rejected-call-changes-nothing', unchanged)]},
+              'ensures': [('C16/listed-ids-first-in-the-given-order', lambda c: ForAll([j], Implies(And(0 <= j, j < n_ids(c)), first_with_id(c, at(cur(c), j), LI_.at(ids(c), j))))),
+                          ('C16/the-rest-keeps-its-old-relative-order-behind-them', lambda c: ForAll([a_, b_], Implies(And(mem(L0(c), a_), mem(L0(c), b_), idx(cur(c), a_) >= n_ids(c), idx(cur(c), b_) >= n_ids(c)),
+                                                                                                                    (idx(cur(c), a_) < idx(cur(c), b_)) == (idx(L0(c), a_) < idx(L0(c), b_))))),
+                          ('C01/same-members-each-once (F1 F2 F3 preserved)', lambda c: And(nodup(cur(c)), ForAll([x], mem(cur(c), x) == mem(L0(c), x)), h(c).par == h(c, 'pre').par)),
+                          ('C01,C11/list-object-of-the-parent-unchanged (earlier facades stay valid)', lambda c: And(h(c).chl[fp(c)] == fl(c, 'pre'), ForAll([t_], Implies(t_ != fp(c), h(c).chl[t_] == h(c, 'pre').chl[t_])))),
+                          ('C16/children-lists-of-all-other-tasks-unchanged', lambda c: ForAll([t_], Implies(And(t_ != null, h(c, 'pre').chl[t_] != fl(c, 'pre')), h(c).ch(t_) == h(c, 'pre').ch(t_))))]}
+        return Engine(F, '_ChildrenList.reorder', {'prop:Task.id': c_id}, FAC_CLASSES, fc, plugins=[ReorderPlugin()]), LIST_AX + LIST_CAT_AX
+    return Unit('_ChildrenList.reorder', F, build, ['C01', 'C15', 'C16'], timeout_ms=15000)
+
+
+UNITS.append(reorder_unit())
+
+
+# ================================================================================================ _ChildrenList.append
+def c_check_not_none(eng, st, recv, args, kws, node):
+    a = args[0]
+    isnone = (a.e == a.s.null) if a.s.is_ref else BoolVal(a.s == NONE)
+    return [(st.fork(Not(isnone)), V(None, NONE)), (st.fork(isnone), Raise('RuntimeError'))]
+
+
+def c_set_parent(eng, st, recv, args, kws, node):
+    return parent_setter_call(eng, st, recv.e, args[0].e, node.lineno)
+
+
+def append_unit():
+    def build():
+        fp = lambda c: Select(c.fld('ChildrenFacade', '_ChildrenList__parent'), c['self'])
+        pre_h = lambda c: H(c.eng, c.pre)
+        rc = lambda c: Or(c['task'] == null, raise_cond(pre_h(c), c['task'], fp(c), clashfn(fp(c), c['task'], pre_h(c))))
+
+        def req(lab):
+            def f(c):
+                h = H(c.eng, c.st)
+                extra = {'task-is-no-hidden-root': ForAll([w_], Implies(w_ != W.null, h.root[w_] != c['task'])), 'facade-non-null': c['self'] != FAC.null}
+                return {**Inv(h), **extra}[lab]
+            return f
+        labels = [l_ for l_ in INV_LABELS if l_ != U1]
+        fc = {'sig': {'self': FAC, 'task': T},
+              'requires': [(l_, req(l_)) for l_ in labels + ['task-is-no-hidden-root', 'facade-non-null']],
+              'raises': {'RuntimeError': [('C15/rejected-call-changes-nothing', lambda c: And(H(c.eng, c.st).par == pre_h(c).par, H(c.eng, c.st).elems == pre_h(c).elems, H(c.eng, c.st).own == pre_h(c).own)),
+                                          ('C01,C05,C11/rejected-only-for-None-or-a-stated-reason', rc)]},
+              'ensures': [(l_, (lambda l_: lambda c: Inv(H(c.eng, c.st))[l_])(l_)) for l_ in labels] +
+                         [(l_, (lambda l_: lambda c: effect(pre_h(c), H(c.eng, c.st), c['task'], fp(c))[l_])(l_)) for l_ in EFFECT_LABELS] +
+                         [('C01,C05,C11/accepted-only-without-a-reason-to-reject', lambda c: Not(rc(c)))]}
+        return Engine(F, '_ChildrenList.append', {'fn:_check_not_none': c_check_not_none, 'setprop:Task.parent': c_set_parent}, FAC_CLASSES, fc, plugins=[ListPlugin()]), LIST_AX + GRAPH_AX
+    return Unit('_ChildrenList.append', F, build, ['C01', 'C11', 'C15', 'C16'], timeout_ms=15000)
+
+
+UNITS.append(append_unit())
+
+
+# ================================================================================================ _ChildrenList.insert
+def move_call(eng, st, fac, tasklist, before, after, line):
+    """contract of _ChildrenList.move at a call site (the clauses proved by move_unit, for a one-element task list)"""
+    h0 = H(eng, st)
+    lref = Select(eng.field(st, 'ChildrenFacade', '_list'), fac); par_ = Select(eng.field(st, 'ChildrenFacade', '_ChildrenList__parent'), fac)
+    L0 = h0.elems[lref]
+    st.oblige('req@move/facade-aliases-its-parents-list-object', And(fac != FAC.null, par_ != null, lref != LR.null, lref == h0.chl[par_], nodup(L0)), f'@{line}')
+    st.oblige('req@move/O1-list-objects-distinct', Inv(h0)['O1-list-objects-distinct'], f'@{line}')
+    reject = Or(Exists([x], And(mem(tasklist, x), Not(mem(L0, x)))), And(before != null, Not(mem(L0, before))), And(after != null, Not(mem(L0, after))), And(before != null, after != null),
+                And(before == null, after == null), And(before != null, mem(tasklist, before)), And(after != null, mem(tasklist, after)))
+    exc = st.fork(reject); ok = st.fork(Not(reject))
+    eng.havoc(ok, 'PyList.elems'); h1 = H(eng, ok); L1 = h1.elems[lref]
+    ok.assume(And(nodup(L1), ln(L1) == ln(L0), ForAll([x], mem(L1, x) == mem(L0, x), patterns=[mem(L1, x)]),
+                  ForAll([t_], Implies(h0.chl[t_] != lref, h1.ch(t_) == h0.ch(t_)), patterns=[h1.chl[t_]]),
+                  ForAll([t_], Implies(t_ != null, And(h1.P(t_) == h0.P(t_), h1.S(t_) == h0.S(t_))), patterns=[h1.pre[t_]]),
+                  ForAll([a_, b_], Implies(And(mem(L0, a_), mem(L0, b_), Not(mem(tasklist, a_)), Not(mem(tasklist, b_))), (idx(L1, a_) < idx(L1, b_)) == (idx(L0, a_) < idx(L0, b_))),
+                         patterns=[MultiPattern(idx(L1, a_), idx(L1, b_))]),
+                  Implies(ln(tasklist) == 1, If(before != null, idx(L1, at(tasklist, 0)) + 1 == idx(L1, before), idx(L1, at(tasklist, 0)) == idx(L1, after) + 1)),
+                  Implies(ln(tasklist) == 1, L1 == single_move_result(L0, at(tasklist, 0), before, after))))
+    return [(ok, V(None, NONE)), (exc, Raise('RuntimeError'))]
+
+
+def insert_unit():
+    def build():
+        fp = lambda c, w='cur': Select(c.fld('ChildrenFacade', '_ChildrenList__parent', w), c['self'])
+        fl = lambda c, w='cur': Select(c.fld('ChildrenFacade', '_list', w), c['self'])
+        pre_h = lambda c: H(c.eng, c.pre)
+        L0 = lambda c: pre_h(c).elems[fl(c, 'pre')]
+        L1 = lambda c: H(c.eng, c.st).elems[fl(c, 'pre')]
+        rc = lambda c: Or(c['task'] == null, raise_cond(pre_h(c), c['task'], fp(c, 'pre'), clashfn(fp(c, 'pre'), c['task'], pre_h(c))))
+
+        class InsertPlugin(ListPlugin):
+            def call(self_, eng, e, st):
+                f = e.func
+                if isinstance(f, ast.Attribute) and f.attr == 'move' and isinstance(f.value, ast.Name) and f.value.id == 'self':
+                    s, tk_ = eng.ev1(e.args[0], st)
+                    kws = {}
+                    for k in e.keywords: s, kws[k.arg] = eng.ev1(k.value, s)
+                    Lv = fresh('one', LT); s.assume(And(ln(Lv) == 1, at(Lv, 0) == tk_.e, ForAll([x], mem(Lv, x) == (x == tk_.e), patterns=[mem(Lv, x)])))      # _to_list(task) = [task]
+                    b = kws['before'].e if 'before' in kws else null; a = kws['after'].e if 'after' in kws else null
+                    return move_call(eng, s, s.env['self'].e, Lv, b, a, e.lineno)
+                return ListPlugin.call(self_, eng, e, st)
+
+            def ev_Subscript(self_, eng, e, st):
+                if isinstance(e.slice, ast.Slice): return NotImplemented
+                s, o = eng.ev1(e.value, st)
+                if o.s != LR: return NotImplemented
+                s, i_ = eng.ev1(e.slice, s)
+                lst = self_.listval(eng, s, o, e.lineno); n = ln(lst)
+                s.oblige('safe/IndexError', And(i_.e < n, i_.e >= -n), f'@{e.lineno}')
+                return [(s, V(at(lst, If(i_.e < 0, n + i_.e, i_.e)), T))]
+        def req(lab):
+            def f(c):
+                h = H(c.eng, c.st)
+                extra = {'task-is-no-hidden-root': ForAll([w_], Implies(w_ != W.null, h.root[w_] != c['task'])),
+                         'facade-aliases-its-parents-list-object': And(c['self'] != FAC.null, fp(c) != null, fl(c) != LR.null, fl(c) == h.chl[fp(c)]),
+                         'NN-children-non-null': ForAll([t_, x], Implies(And(t_ != null, mem(h.ch(t_), x)), x != null), patterns=[mem(h.ch(t_), x)])}
+                return {**Inv(h), **extra}[lab]
+            return f
+        labels = [l_ for l_ in INV_LABELS if l_ != U1]
+        newtask = lambda c: Not(mem(L0(c), c['task']))
+        fc = {'sig': {'self': FAC, 'index': INT, 'task': T}, 'locals': {'anchor': T},
+              'requires': [(l_, req(l_)) for l_ in labels + ['task-is-no-hidden-root', 'facade-aliases-its-parents-list-object', 'NN-children-non-null']],
+              'raises': {'RuntimeError': [('C15/rejected-call-changes-nothing', lambda c: And(H(c.eng, c.st).par == pre_h(c).par, H(c.eng, c.st).elems == pre_h(c).elems, H(c.eng, c.st).own == pre_h(c).own)),
+                                          ('C01,C05,C11/rejected-only-for-None-or-a-stated-reason', rc)]},
+              'ensures': [('C16/a-new-task-ends-up-at-index-i (0 <= i <= old length)', lambda c: Implies(And(newtask(c), 0 <= c['index'], c['index'] <= ln(L0(c))), And(mem(L1(c), c['task']), idx(L1(c), c['task']) == c['index']))),
+                          ('C16/members-are-the-old-members-plus-the-task-each-once', lambda c: And(nodup(L1(c)), ForAll([x], mem(L1(c), x) == Or(mem(L0(c), x), x == c['task'])))),
+                          ('C16/other-siblings-keep-their-relative-order', lambda c: ForAll([a_, b_], Implies(And(mem(L0(c), a_), mem(L0(c), b_), a_ != c['task'], b_ != c['task']),
+                                                                                                           (idx(L1(c), a_) < idx(L1(c), b_)) == (idx(L0(c), a_) < idx(L0(c), b_))))),
+                          ('C01,C05,C11/accepted-only-without-a-reason-to-reject', lambda c: Not(rc(c))),
+                          ('C16/task-reports-the-facades-parent', lambda c: H(c.eng, c.st).par[c['task']] == fp(c, 'pre'))]}
+        return Engine(F, '_ChildrenList.insert', {'fn:_check_not_none': c_check_not_none, 'setprop:Task.parent': c_set_parent}, FAC_CLASSES, fc, plugins=[InsertPlugin()]), LIST_AX + LIST_INS_AX + GRAPH_AX
+    return Unit('_ChildrenList.insert', F, build, ['C15', 'C16'], timeout_ms=15000)
+
+
+UNITS.append(insert_unit())
